@@ -245,19 +245,26 @@ def restore_field_names(j, verif_dir):
     inv = json.load(open(p))
     taken = set()
     for adt, variants in inv.items():
-        for vn, fields in variants:
-            for i, f in enumerate(fields):
+        for var in variants:
+            for i, f in enumerate(var[1]):
                 taken.add((i, f))
     ren = {}
     for a in j.get("adts", []):
         old = inv.get(a["path"])
         if old is None or len(old) != len(a["variants"]):
             continue
-        for (vn, fields), v in zip(old, a["variants"]):
+        for var, v in zip(old, a["variants"]):
+            fields = var[1]
+            tys = var[2] if len(var) > 2 else [None] * len(fields)
             if len(fields) != len(v["fields"]):
                 continue
+            new_names = {nf["name"] for nf in v["fields"]}
             for i, (of, nf) in enumerate(zip(fields, v["fields"])):
-                if of != nf["name"] and (i, nf["name"]) not in taken and not nf["name"].isdigit():
+                if tys[i] is not None and nf.get("ty") != tys[i]:
+                    continue        # a different field took the place, not a rename
+                # a rename: the reviewed name is gone from the struct and the new name was not in it (anything else is a
+                # reordering of fields that kept their names)
+                if of != nf["name"] and of not in new_names and nf["name"] not in fields and (i, nf["name"]) not in taken and not nf["name"].isdigit():
                     ren[".%d:%s" % (i, nf["name"])] = ".%d:%s" % (i, of)
                     nf["name"] = of
     if not ren:
